@@ -1,0 +1,91 @@
+//go:build verif
+
+package lossless
+
+import (
+	"errors"
+	"strings"
+	"sync"
+)
+
+// Verification hook for the VP8L decoder front end (property C05). Compiled
+// only with the build tag "verif"; it adds no behaviour of its own.
+
+// VerifLTransform describes one transform as readTransform left it.
+type VerifLTransform struct {
+	Type, XSize, YSize, Bits, DataLen int
+}
+
+// VerifLFront is the decoder state after a real DecodeVP8L call.
+type VerifLFront struct {
+	Reached        bool // the allocations of DecodeVP8L were reached (header + image stream accepted)
+	Width, Height  int
+	HasAlpha       bool
+	TransformWidth int
+	ColorCacheSize int
+	HuffmanBits    int
+	NumHTreeGroups int
+	Transforms     []VerifLTransform
+	Pixels         int // len(dec.pixels)       = needed
+	TransformBuf   int // len(dec.transformBuf) = numAlloc
+}
+
+var verifFrontMu sync.Mutex
+
+// VerifVP8LFront runs the real DecodeVP8L on a decoder planted in a private,
+// otherwise empty pool and reads the state it leaves behind (releaseDecoder
+// keeps the dimensions, the transform array, the numeric metadata and both
+// pixel buffers). The package pool is swapped under a mutex: callers must not
+// run other lossless decodes concurrently.
+func VerifVP8LFront(data []byte) (*VerifLFront, error) {
+	verifFrontMu.Lock()
+	defer verifFrontMu.Unlock()
+	for attempt := 0; attempt < 8; attempt++ {
+		d0 := &Decoder{}
+		losslessDecoderPool = sync.Pool{}
+		losslessDecoderPool.Put(d0)
+		_, err := DecodeVP8L(data)
+		used := d0.Width != 0 || d0.huffScratch.tableSlab != nil
+		if !used && err == nil {
+			continue // the pool handed out another decoder (goroutine migrated); retry
+		}
+		if !used {
+			// rejected before decodeHeader stored anything, or another decoder was used
+			if errors.Is(err, ErrBadSignature) {
+				return &VerifLFront{}, err
+			}
+			continue
+		}
+		f := &VerifLFront{
+			Reached: len(d0.pixels) > 0,
+			Width:   d0.Width, Height: d0.Height, HasAlpha: d0.HasAlpha,
+			TransformWidth: d0.transformWidth,
+			ColorCacheSize: d0.hdr.colorCacheSize, HuffmanBits: d0.hdr.huffmanSubsampleBits,
+			NumHTreeGroups: d0.hdr.numHTreeGroups,
+			Pixels:         len(d0.pixels), TransformBuf: len(d0.transformBuf),
+		}
+		for i := 0; i < d0.nextTransform; i++ {
+			t := &d0.transforms[i]
+			f.Transforms = append(f.Transforms, VerifLTransform{int(t.Type), t.XSize, t.YSize, t.Bits, len(t.Data)})
+		}
+		losslessDecoderPool = sync.Pool{}
+		return f, err
+	}
+	losslessDecoderPool = sync.Pool{}
+	return nil, errors.New("verif: could not plant a decoder in the pool")
+}
+
+// VerifLFrontErrClass maps an error of DecodeVP8L to the class names of the model.
+func VerifLFrontErrClass(err error) string {
+	switch {
+	case err == nil:
+		return ""
+	case errors.Is(err, ErrBadSignature):
+		return "signature"
+	case errors.Is(err, ErrBadVersion):
+		return "version"
+	case strings.Contains(err.Error(), "image too large"):
+		return "toolarge"
+	}
+	return "bitstream"
+}
